@@ -36,6 +36,7 @@ def run(ctx):
     ctx.rule(logfloor)
     ctx.rule(filters_stored_whole)
     ctx.rule(log_floor_live)
+    ctx.rule(any_layout)
 
 
 def geom(ctx, R="R-C02-geom"):
@@ -86,7 +87,149 @@ def geom(ctx, R="R-C02-geom"):
     ctx.floor(R, n, 3)
 
 
+def walk_by_evaluation(ctx, R="R-C02-walk"):
+    """Coefficient i is the sum over ALL bins of the DFT of |H_i[k] X[k]|^p, with H_i given as a start bin s and a run of T
+    values that may wrap round the end of the spectrum, and X available as the half spectrum only (bins above D/2 are the
+    conjugates of bins D-k).  Whether the constructor's stored start bins and the frame routine's walk realise that sum is a
+    question about which (bin, conjugated?, tap) triples get multiplied - decided here by evaluating both loops with the checker's
+    own interpreter (pdsa/walk.py) for every DFT size up to 10, every start bin and every run length, and comparing the triples
+    with the definition.  Returns True when the walk was decided (either way); False when it is written with constructs outside
+    the interpreter's vocabulary, in which case the closed-form clauses below take over."""
+    from .. import walk as W
+    prog = ctx.prog
+    c = prog.cls("compute.ShortTimeFourierTransformFrameComputer")
+    init, fr = prog.own_method(c, "__init__"), prog.own_method(c, "_compute_frame")
+    what = "the stored start bins and the segment walk multiply tap j of a filter with bin (s + j) mod D, read from the half spectrum (conjugated above D/2)"
+    init_loops = [n for n in init.body_nodes() if isinstance(n, ast.For) and any(astq.attr_call(x, "get_truncated_response") for x in ast.walk(n))]
+    fr_loops = [n for n in fr.body_nodes() if isinstance(n, ast.For) and any(
+        isinstance(x, ast.Subscript) and isinstance(x.ctx, ast.Store) and astq.is_name(x.value, fr.params[2]) for x in ast.walk(n))]
+    spect = sorted({t.id for n in fr.body_nodes() if isinstance(n, ast.Assign) and any(astq.attr_call(x, "rfft") for x in ast.walk(n.value))
+                    for t in n.targets if isinstance(t, ast.Name)})
+    if len(init_loops) != 1 or len(fr_loops) != 1 or len(spect) != 1:
+        return False
+    pm_i, pm_f = astq.parents(init), astq.parents(fr)
+    if any(isinstance(a, (ast.For, ast.While)) for a in astq.ancestors(pm_i, init_loops[0])) or any(isinstance(a, (ast.For, ast.While)) for a in astq.ancestors(pm_f, fr_loops[0])):
+        return False
+    lists = [astq.text(t) for n in init.body_nodes() if isinstance(n, ast.Assign) and isinstance(n.value, ast.List) and not n.value.elts for t in n.targets]
+    bankname = None
+    for x in ast.walk(init_loops[0]):
+        if astq.attr_call(x, "get_truncated_response"):
+            bankname = astq.text(x.func.value)
+    pre = []
+    for st in fr.node.body:
+        if st is fr_loops[0] or any(y is fr_loops[0] for y in ast.walk(st)):
+            break
+        pre.append(st)
+    container = fr_loops[0]
+    for st in fr.node.body:
+        if st is not fr_loops[0] and any(y is fr_loops[0] for y in ast.walk(st)):
+            return False      # the per-filter loop sits under a condition: not modelled
+
+    def scenario(D, s, T, L, real=False):
+        H = W.Arr([("H", j, False) for j in range(T)])
+
+        def gtr(interp, call):
+            return (s, H)
+        env = {"self._dft_size": D, "dft_size": D, bankname + ".num_filts": 1, "self._bank.num_filts": 1, "bank.num_filts": 1, "self.num_filts": 1}
+        for l_ in lists:
+            env[l_] = []
+        it = W.Interp(env, hooks={"get_truncated_response": gtr})
+        it.run([init_loops[0]])
+        half_len = D // 2 + 1
+        env2 = {k: v for k, v in it.env.items() if k.startswith("self.")}
+        env2.update({"self._real": real, "self.is_real": real, "self._log": False, "self._power": False, "self._include_energy": False, "self.includes_energy": False,
+                     "self._frame_length": L, "self.frame_length": L, "self.num_coeffs": 1, "config.USE_FFTPACK": False, fr.params[2]: [None],
+                     spect[0]: W.Arr([("X", k, False) for k in range(half_len)])})
+        it2 = W.Interp(env2)
+        # integer bookkeeping that precedes the loop (half_len = len(half_spect) ...): evaluated where it can be
+        def quiet(stmts):
+            for st in stmts:
+                if isinstance(st, ast.If):
+                    try:
+                        t = it2.truth(it2.ev(st.test))
+                    except (W.Unsupported, W.ShapeError):
+                        continue
+                    quiet(st.body if t else st.orelse)
+                elif isinstance(st, (ast.Assign, ast.AugAssign)):
+                    tg = st.targets if isinstance(st, ast.Assign) else [st.target]
+                    if any(isinstance(x, ast.Name) and x.id in (spect[0], fr.params[2]) for t_ in tg for x in ast.walk(t_)):
+                        continue
+                    try:
+                        it2.run([st])
+                    except (W.Unsupported, W.ShapeError):
+                        continue
+        quiet(pre)
+        it2.stores = []
+        it2.run([fr_loops[0]])
+        outs = [v for b, i, v in it2.stores if b == fr.params[2] and i == 0]
+        if len(outs) != 1:
+            raise W.Unsupported("coefficient store not found")
+        v = outs[0]
+        if isinstance(v, int) and v == 0:
+            got = []
+        elif isinstance(v, W.Terms):
+            got = list(v.pairs)
+        else:
+            raise W.Unsupported("coefficient is %s" % type(v).__name__)
+
+        def norm(x):
+            (n1, i1, c1), (n2, i2, c2) = x
+            if n1 == "H":
+                (n1, i1, c1), (n2, i2, c2) = (n2, i2, c2), (n1, i1, c1)
+            if n1 != "X" or n2 != "H":
+                raise W.Unsupported("product of %s and %s" % (n1, n2))
+            if i1 == 0 or (D % 2 == 0 and i1 == D // 2):
+                c1 = False
+            return (i1, c1 != c2, i2)
+        got = sorted(norm(x) for x in got)
+        want = []
+        for j in range(T):
+            k = (s + j) % D
+            want.append((k, False, j) if k <= D // 2 else (D - k, True, j))
+        want = sorted((i, (False if (i == 0 or (D % 2 == 0 and i == D // 2)) else cj), j) for i, cj, j in want)
+        return got, want
+
+    n = 0
+    try:
+        for D in range(2, 11):
+            for s_ in range(D):
+                for T, L in [(T_, L_) for T_ in range(0, D + 1) for L_ in ((D, D - 1) if D > 2 else (D,))]:
+                    n += 1
+                    try:
+                        got, want = scenario(D, s_, T, L)
+                    except W.ShapeError as e:
+                        ctx.bad(R, fr, fr_loops[0], "for a DFT of %d bins (frame length %d) and a filter that starts at bin %d with %d value(s), evaluating the constructor's loop and the "
+                                "segment walk fails: %s" % (D, L, s_, T, e), what, robust=True)
+                        return True
+                    if got == want and s_ + T <= D // 2 + 1 and L == D:
+                        # a real bank: its filters stay inside the half spectrum; the doubled sum pairs the same elements
+                        try:
+                            got, want = scenario(D, s_, T, L, real=True)
+                        except W.ShapeError as e:
+                            ctx.bad(R, fr, fr_loops[0], "for a real bank, a DFT of %d bins and a filter that starts at bin %d with %d value(s), evaluating the "
+                                    "segment walk fails: %s" % (D, s_, T, e), what, robust=True)
+                            return True
+                    if got != want:
+                        def show(tr):
+                            return ", ".join("%sX[%d]*H[%d]" % ("conj " if cj else "", i, j) for i, cj, j in tr[:8]) + (" ..." if len(tr) > 8 else "") or "nothing"
+                        missing = [t for t in want if t not in got]
+                        extra = [t for t in got if t not in want]
+                        ctx.bad(R, fr, fr_loops[0], "for a DFT of %d bins (frame length %d) and a filter that starts at bin %d with %d value(s) the walk multiplies %s ; the sum over all "
+                                "bins needs %s (missing: %s; not part of the sum: %s)" % (D, L, s_, T, show(got), show(want), show(missing), show(extra)), what, robust=True)
+                        return True
+    except W.Unsupported as e:
+        if n > 1:
+            ctx.error(R, "cannot decide the segment walk by evaluation (%s after %d size combinations)" % (e, n))
+            return True
+        return False
+    ctx.ok(R, fr.loc(fr_loops[0]), what, "%d combinations of DFT size (2..10), start bin and run length evaluated" % n)
+    return True
+
+
 def mirror(ctx, R="R-C02-mirror"):
+    if walk_by_evaluation(ctx):
+        ctx._walk_decided = True
+        return
     m = sc.np_mirror(ctx, R)
     sc.check_mirror(ctx, R, m, S.sym("start_idx"), S.call("len", S.call("getitem", S.sym("self._truncated_filts"), S.sym("filt_idx"))), flipped_slices=False)
     f = m["func"]
@@ -329,6 +472,8 @@ def filters_stored_whole(ctx, R="R-C02-walk"):
     f = prog.own_method(c, "__init__")
     ev = SymEval(prog, f).run()
     for attr, pos, what in (("self._truncated_filts", 1, "truncated responses"), ("self._filt_start_idxs", 0, "start bins")):
+        if pos == 0 and getattr(ctx, "_walk_decided", False) and R.startswith("R-C02"):
+            continue  # how the start bins are stored was evaluated together with the walk that consumes them
         v = ev.env.get(attr)
         if v is None or not (cc.is_call(v, "list") and len(v.args) == 2 and cc.is_call(v.args[1], "repeat")):
             ctx.error(R, "cannot decide how the constructor stores the bank's %s: %s" % (what, S.show(v)[:100] if v is not None else "not assigned"))
@@ -351,3 +496,12 @@ def log_floor_live(ctx, R="R-C02-logfloor"):
     not captured in a default argument, a module-level constant, a from-import or (C02: the constructor)"""
     from .c07 import config_live
     config_live(ctx, R, floor=3, module="compute", attr="LOG_FLOOR_VALUE")
+
+
+def any_layout(ctx, R="R-C02-geom"):
+    """every signal is a valid input whatever its memory layout (strided views, Fortran order): nothing is refused on .flags / .strides"""
+    from . import partial
+    prog = ctx.prog
+    c = prog.cls("compute.ShortTimeFourierTransformFrameComputer")
+    roots = [m for m in (prog.find_method(c, n) for n in ("compute_full", "compute_chunk", "finalize")) if m is not None]
+    partial.layout_independent(ctx, R, roots)
